@@ -331,6 +331,9 @@ def main():
     a = ap.parse_args()
     t0 = time.time()
     prop = a.prop
+    if a.tier == "thorough":
+        # the deep tier may take its time: a program is given up (undecided, exit 2) only after generous solver budgets
+        LIMITS.update(timeout_ms=15000, budget_s=400)
     try:
         scratch = V.Scratch(prop.lower())
         exe = build_cli(scratch)
